@@ -656,6 +656,10 @@ func (c *bctx) fieldOf(sv ssa.Value, name string) ssa.Value {
 				if p, ok := fld.X.(*ssa.Parameter); ok {
 					fv = paramField{p, ssau.FieldName(fld)}
 				}
+			} else if ld, ok := fv.(*ssa.UnOp); ok && ld.Op == token.MUL && isParamFieldAddr(ld.X) {
+				// the helper takes the struct by pointer: options.Limit through *SearchOptions
+				fa := ld.X.(*ssa.FieldAddr)
+				fv = paramField{fa.X.(*ssa.Parameter), ssau.FieldName(fa)}
 			} else if _, ok := fv.(paramField); !ok && fv != nil {
 				if pp, ok := limitParam(gc, fv); ok {
 					if pp.field != "" {
@@ -696,13 +700,18 @@ func (c *bctx) fieldOf(sv ssa.Value, name string) ssa.Value {
 		}
 		return out
 	}
-	u, ok := sv.(*ssa.UnOp)
-	if !ok || u.Op != token.MUL {
-		return nil
-	}
-	cell, ok := u.X.(*ssa.Alloc)
-	if !ok {
-		return nil
+	var u *ssa.UnOp
+	cell, isAddr := sv.(*ssa.Alloc) // the address of a struct variable handed to a helper
+	if !isAddr {
+		var ok bool
+		u, ok = sv.(*ssa.UnOp)
+		if !ok || u.Op != token.MUL {
+			return nil
+		}
+		cell, ok = u.X.(*ssa.Alloc)
+		if !ok {
+			return nil
+		}
 	}
 	// look for a load of cell.name in the same function with the same version as this whole-struct load would see:
 	// simplest exact case — exactly one store to cell.name (or none: then take whole-struct stores)
@@ -736,11 +745,25 @@ func (c *bctx) fieldOf(sv ssa.Value, name string) ssa.Value {
 		}
 		return nil
 	}
-	if len(stores) == 1 && ssau.Dominates(stores[0], u) {
-		return stores[0].Val
+	if len(stores) == 1 && (u == nil || ssau.Dominates(stores[0], u)) {
+		if u != nil || stores[0].Block() == cell.Block() {
+			return stores[0].Val
+		}
+	}
+	if u == nil {
+		return nil
 	}
 	// several stores (e.g. defaulting `if L <= 0 { opts.Limit = 10 }`): name the location at this point
 	return cellField{c.f, u, cell, name}
+}
+
+func isParamFieldAddr(a ssa.Value) bool {
+	fa, ok := a.(*ssa.FieldAddr)
+	if !ok {
+		return false
+	}
+	_, ok = fa.X.(*ssa.Parameter)
+	return ok
 }
 
 // paramField / cellField are symbolic stand-ins rendered specially by E().
